@@ -1,8 +1,8 @@
 package types
 
 import (
+	"bytes"
 	"encoding/binary"
-	"strings"
 
 	errorsmod "cosmossdk.io/errors"
 	storetypes "cosmossdk.io/store/types"
@@ -57,9 +57,10 @@ func IterateProcessedTime(store storetypes.KVStore, cb func(key, val []byte) boo
 	defer iterator.Close()
 	for ; iterator.Valid(); iterator.Next() {
 		key := iterator.Key()
-		keySplit := strings.Split(string(key), "/")
-		// processed time key in prefix store has format: "consensusState/<height>/processedTime"
-		if len(keySplit) != 3 || keySplit[2] != "processedTime" {
+		// processed time key in prefix store has format: "consensusStates/<height>/processedTime";
+		// <height> is 16 binary bytes which may contain '/', so the key is recognised by position
+		if len(key) != len(host.KeyConsensusStatePrefix)+1+16+len(KeyProcessedTime) ||
+			!bytes.HasSuffix(key, KeyProcessedTime) {
 			// ignore all consensus state keys
 			continue
 		}
